@@ -396,6 +396,9 @@ def c16(ctx, api):
     st, summ = api['run_tlc_to_harness'](ctx, 'names', 'GenNames', cfg(constants={'Emit': 'TRUE', 'Prop': '"C16"'}), timeout=1500)
     acc.add('GenNames: 31 member names that look like syntax ("x.y", "x[0]", "*", "a|b", "", "0", "let" ...) in 17 positions, each paired with its '
             'piped spelling, on documents that also hold what a name split at dots or brackets would find', st, summ)
+    st, summ = api['run_tlc_to_harness'](ctx, 'escape', 'GenEscape', cfg(constants={'Emit': 'TRUE', 'Prop': '"C16"', 'Wide': tb(thorough)}), timeout=1500)
+    acc.add('GenEscape: \\uXXXX with every four-character body over %d hex digits and near-misses (+ - g _ x blank) in 5 literal positions; 21 control / separator '
+            'characters raw inside each literal kind at 3 positions; every one-character escape' % (13 if thorough else 8), st, summ)
     return acc.result(RULE_PINNED, extra={'model_checks': ['LiteralDecodesToItself', 'DecEncRaw', 'DecEncQuoted', 'DecEncJSON', 'OneToken', 'CountLemma']})
 
 
@@ -426,6 +429,9 @@ def c04(ctx, api):
     acc.add('GenSweep: 40 token families (raw / JSON / quoted literals with 1-4-byte characters and escapes, blanks, identifiers, ill-formed '
             'and unterminated literals) at EVERY repetition count 0..%d, i.e. every byte alignment across 512 .. 32768-byte boundaries; '
             'Search and Compile at each length (expected outcome a function of n, SweepLemma)' % (9000 if thorough else 1100), st, summ)
+    st, summ = api['run_tlc_to_harness'](ctx, 'escape', 'GenEscape', cfg(constants={'Emit': 'TRUE', 'Prop': '"C04"', 'Wide': tb(thorough)}), timeout=1500)
+    acc.add('GenEscape: \\uXXXX with every four-character body over %d hex digits and near-misses (+ - g _ x blank) in 5 literal positions; 21 control / separator '
+            'characters raw inside each literal kind at 3 positions; every one-character escape' % (13 if thorough else 8), st, summ)
     return acc.result('every concatenation of at most k lexemes of each alphabet is compiled by the real library (the harness '
                       'enumerates them itself) and compared with the static outcome of the specification, which TLC computed for '
                       'the same enumeration (TLC prints only the texts that are not plain syntax errors); a case is non-trivial '
@@ -560,6 +566,9 @@ def c08(ctx, api):
     consts = {'Emit': 'TRUE', 'Prop': '"C08"', 'MaxCalls': 3 if thorough else 2, 'MaxDocs': 6, 'NTexts': 200}
     st, summ = api['run_tlc_to_harness'](ctx, 'api-space', 'API', api_cfg(consts, 'SpaceSel'), timeout=3000)
     acc.add('API.tla histories over a text and its variants with non-JMESPath blanks (a syntax fault must not depend on what was searched before)', st, summ)
+    st, summ = api['run_tlc_to_harness'](ctx, 'escape', 'GenEscape', cfg(constants={'Emit': 'TRUE', 'Prop': '"C08"', 'Wide': tb(thorough)}), timeout=1500)
+    acc.add('GenEscape: \\uXXXX with every four-character body over %d hex digits and near-misses (+ - g _ x blank) in 5 literal positions; 21 control / separator '
+            'characters raw inside each literal kind at 3 positions; every one-character escape' % (13 if thorough else 8), st, summ)
     return acc.result(RULE_PINNED + '; on every failing call the harness also requires a nil result, exactly one matching exported '
                       'category under errors.Is, and that the error formats',
                       extra={'model_checks': ['SingleCategory', 'StaticIgnoresDoc', 'StaticAtCompile']})
